@@ -2,7 +2,11 @@
 // whitespace alphabet for JSX text / attribute strings: [name, source spelling, decoded]
 const SYM = [
   ['a', 'a', 'a'], ['SP', ' ', ' '], ['LF', '\n', '\n'], ['TAB', '\t', '\t'], ['CR', '\r', '\r'],
-  ['CRLF', '\r\n', '\r\n'], ['NBSP', ' ', ' '], ['&nbsp;', '&nbsp;', ' '],
-  ['EM', ' ', ' '], ['b', 'b', 'b'], ['&amp;', '&amp;', '&'],
+  ['CRLF', '\r\n', '\r\n'], ['NBSP', '\u00a0', '\u00a0'], ['&nbsp;', '&nbsp;', '\u00a0'],
+  ['EM', '\u2003', '\u2003'], ['b', 'b', 'b'], ['&amp;', '&amp;', '&'],
+  // characters that need escaping when the text is printed as a string literal
+  ['BSL', '\\', '\\'], ['DQ', '"', '"'],
 ];
-module.exports = { SYM };
+// attribute strings are delimited by double quotes: everything but DQ
+const SYM_ATTR = SYM.filter((x) => x[0] !== 'DQ');
+module.exports = { SYM, SYM_ATTR };
